@@ -28,6 +28,7 @@ import (
 type site struct {
 	calls   atomic.Int32
 	at      atomic.Int32
+	times   atomic.Int32 // how many consecutive calls panic, starting with call `at` (0 = one)
 	fired   atomic.Int32
 	firedAt atomic.Int64 // virtual time (UnixNano) of the injected panic
 	nextAt  atomic.Int64 // virtual time of the first call after the panic
@@ -35,10 +36,15 @@ type site struct {
 
 func (s *site) hit(name string) {
 	n := s.calls.Add(1)
-	if s.fired.Load() > 0 && s.nextAt.Load() == 0 {
+	a, k := s.at.Load(), s.times.Load()
+	if k < 1 {
+		k = 1
+	}
+	will := a != 0 && n >= a && n < a+k
+	if s.fired.Load() >= k && !will && s.nextAt.Load() == 0 {
 		s.nextAt.CompareAndSwap(0, time.Now().UnixNano())
 	}
-	if a := s.at.Load(); a != 0 && n == a {
+	if will {
 		s.fired.Add(1)
 		s.firedAt.Store(time.Now().UnixNano())
 		panic("injected panic in " + name)
